@@ -17,94 +17,93 @@ open NPat
 theorem mp_returns_iff (n : Nat) (a b c : NPat) (ha : a.Shape = true) (hb : b.Shape = true)
     (h : pyMP n a b = some (some c)) :
     ∃ l r, a.expand = .imp l r ∧ l = b.expand ∧ c.expand = r := by
-  simp only [pyMP] at h
-  cases hh : headF n a with
-  | none => simp [hh] at h
-  | some q =>
-    obtain ⟨he, hs, _⟩ := headF_expand n a q ha hh
-    cases q <;> simp [hh] at h
-    case imp l r =>
-      cases hp : peqF n l b with
-      | none => simp [hp] at h
-      | some eq =>
-        simp [hp] at h
-        obtain ⟨heq, rfl⟩ := h
-        have hsl : l.Shape = true ∧ r.Shape = true := by simpa [NPat.Shape] using hs
-        have := peqF_expand n l b eq hsl.1 hb hp
-        rw [heq] at this
-        simp at this
-        exact ⟨l.expand, c.expand, by rw [← he]; rfl, this, rfl⟩
+  simp only [pyMP, Option.bind_eq_bind, Option.bind_eq_some_iff] at h
+  obtain ⟨q, hh, h⟩ := h
+  obtain ⟨he, hs, _⟩ := headF_expand n a q ha hh
+  cases q with
+  | imp l r =>
+    simp only [Option.bind_eq_some_iff, Option.pure_def, Option.some.injEq] at h
+    obtain ⟨eq, hp, h⟩ := h
+    have hsl : l.Shape = true ∧ r.Shape = true := by simpa [NPat.Shape] using hs
+    have hdec := peqF_expand n l b eq hsl.1 hb hp
+    cases eq with
+    | false => simp at h
+    | true =>
+      simp only [if_true, Option.some.injEq] at h
+      subst h
+      have hlb : l.expand = b.expand := by simpa using hdec.symm
+      exact ⟨l.expand, r.expand, by rw [← he]; simp only [NPat.expand], hlb, rfl⟩
+  | _ => simp at h
 
 /-- …and it raises whenever the rule is inapplicable: a premise that is not an implication, or a
 mismatching antecedent — also under notation -/
 theorem mp_raises_iff (n : Nat) (a b : NPat) (ha : a.Shape = true) (hb : b.Shape = true)
     (h : pyMP n a b = some none) : ¬ ∃ l r, a.expand = .imp l r ∧ l = b.expand := by
-  simp only [pyMP] at h
-  cases hh : headF n a with
-  | none => simp [hh] at h
-  | some q =>
-    obtain ⟨he, hs, hni⟩ := headF_expand n a q ha hh
-    rintro ⟨l0, r0, hl, hlb⟩
-    cases q <;> simp [hh] at h <;> try (rw [← he] at hl; simp [NPat.expand] at hl; done)
-    case imp l r =>
-      cases hp : peqF n l b with
-      | none => simp [hp] at h
-      | some eq =>
-        simp [hp] at h
-        have hsl : l.Shape = true ∧ r.Shape = true := by simpa [NPat.Shape] using hs
-        have := peqF_expand n l b eq hsl.1 hb hp
-        rw [h] at this
-        rw [← he] at hl
-        simp [NPat.expand] at hl
-        simp at this
-        exact this (by rw [hl.1, hlb])
-    case inst p m => simp [NPat.isInst] at hni
+  simp only [pyMP, Option.bind_eq_bind, Option.bind_eq_some_iff] at h
+  obtain ⟨q, hh, h⟩ := h
+  obtain ⟨he, hs, hni⟩ := headF_expand n a q ha hh
+  rintro ⟨l0, r0, hl, hlb⟩
+  rw [← he] at hl
+  cases q with
+  | imp l r =>
+    simp only [Option.bind_eq_some_iff, Option.pure_def, Option.some.injEq] at h
+    obtain ⟨eq, hp, h⟩ := h
+    have hsl : l.Shape = true ∧ r.Shape = true := by simpa [NPat.Shape] using hs
+    have hdec := peqF_expand n l b eq hsl.1 hb hp
+    simp only [NPat.expand, Pat.imp.injEq] at hl
+    cases eq with
+    | true => simp at h
+    | false =>
+      have hne : ¬ l.expand = b.expand := by simpa using hdec.symm
+      exact hne (by rw [hl.1, hlb])
+  | inst p m => simp [NPat.isInst] at hni
+  | _ => simp [NPat.expand] at hl
 
 /-- generalization returns a conclusion only when `x` is judged fresh in the (expanded) consequent -/
 theorem gen_returns_iff (n : Nat) (a c : NPat) (x : VId) (ha : a.Shape = true)
     (h : pyGen n a x = some (some c)) :
     ∃ l r, a.expand = .imp l r ∧ r.eFresh x = true ∧ c.expand = .imp (.ex x l) r := by
-  simp only [pyGen] at h
-  cases hh : headF n a with
-  | none => simp [hh] at h
-  | some q =>
-    obtain ⟨he, hs, _⟩ := headF_expand n a q ha hh
-    cases q <;> simp [hh] at h
-    case imp l r =>
-      cases hp : evarIsFreeF n x r with
-      | none => simp [hp] at h
-      | some fr =>
-        simp [hp] at h
-        obtain ⟨hfr, rfl⟩ := h
-        have hsl : l.Shape = true ∧ r.Shape = true := by simpa [NPat.Shape] using hs
-        have := evarIsFreeF_expand n x r fr hsl.2 hp
-        rw [hfr] at this
-        exact ⟨l.expand, r.expand, by rw [← he]; rfl, this.symm, rfl⟩
+  simp only [pyGen, Option.bind_eq_bind, Option.bind_eq_some_iff] at h
+  obtain ⟨q, hh, h⟩ := h
+  obtain ⟨he, hs, _⟩ := headF_expand n a q ha hh
+  cases q with
+  | imp l r =>
+    simp only [Option.bind_eq_some_iff, Option.pure_def, Option.some.injEq] at h
+    obtain ⟨fr, hp, h⟩ := h
+    have hsl : l.Shape = true ∧ r.Shape = true := by simpa [NPat.Shape] using hs
+    have hfr := evarIsFreeF_expand n x r fr hsl.2 hp
+    cases fr with
+    | false => simp at h
+    | true =>
+      simp only [if_true, Option.some.injEq] at h
+      subst h
+      exact ⟨l.expand, r.expand, by rw [← he]; simp only [NPat.expand], hfr.symm,
+        by simp only [NPat.expand]⟩
+  | _ => simp at h
 
 /-- …and raises when the variable occurs free in the consequent (also under notation) or the premise
 is not an implication -/
 theorem gen_raises_iff (n : Nat) (a : NPat) (x : VId) (ha : a.Shape = true)
     (h : pyGen n a x = some none) : ¬ ∃ l r, a.expand = .imp l r ∧ r.eFresh x = true := by
-  simp only [pyGen] at h
-  cases hh : headF n a with
-  | none => simp [hh] at h
-  | some q =>
-    obtain ⟨he, hs, hni⟩ := headF_expand n a q ha hh
-    rintro ⟨l0, r0, hl, hfr⟩
-    cases q <;> simp [hh] at h <;> try (rw [← he] at hl; simp [NPat.expand] at hl; done)
-    case imp l r =>
-      cases hp : evarIsFreeF n x r with
-      | none => simp [hp] at h
-      | some fr =>
-        simp [hp] at h
-        have hsl : l.Shape = true ∧ r.Shape = true := by simpa [NPat.Shape] using hs
-        have := evarIsFreeF_expand n x r fr hsl.2 hp
-        rw [h] at this
-        rw [← he] at hl
-        simp [NPat.expand] at hl
-        rw [hl.2, hfr] at this
-        exact absurd this (by simp)
-    case inst p m => simp [NPat.isInst] at hni
+  simp only [pyGen, Option.bind_eq_bind, Option.bind_eq_some_iff] at h
+  obtain ⟨q, hh, h⟩ := h
+  obtain ⟨he, hs, hni⟩ := headF_expand n a q ha hh
+  rintro ⟨l0, r0, hl, hfr0⟩
+  rw [← he] at hl
+  cases q with
+  | imp l r =>
+    simp only [Option.bind_eq_some_iff, Option.pure_def, Option.some.injEq] at h
+    obtain ⟨fr, hp, h⟩ := h
+    have hsl : l.Shape = true ∧ r.Shape = true := by simpa [NPat.Shape] using hs
+    have hfr := evarIsFreeF_expand n x r fr hsl.2 hp
+    simp only [NPat.expand, Pat.imp.injEq] at hl
+    cases fr with
+    | true => simp at h
+    | false =>
+      rw [hl.2, hfr0] at hfr
+      exact absurd hfr (by simp)
+  | inst p m => simp [NPat.isInst] at hni
+  | _ => simp [NPat.expand] at hl
 
 /-- schema instantiation returns exactly the instantiated conclusion -/
 theorem inst_returns (n : Nat) (a c : NPat) (δ : List (Nat × NPat)) (ha : a.Shape = true)
@@ -129,3 +128,4 @@ example : pyGen 60 (.imp (.evar 1) (andN (.evar 0) (.evar 1))) 0 = some none := 
 example : (pyGen 60 (.imp (.evar 0) (andN (.evar 1) (.evar 1))) 0).isSome = true := by rfl
 
 end C07
+
